@@ -625,7 +625,8 @@ class StyleProperties:
 
     @classmethod
     def has_px(cls, attrib_value: styles.RubyReserveType) -> bool:
-      return attrib_value.length is not None and attrib_value.length.units == styles.LengthType.Units.px
+      return isinstance(attrib_value, styles.RubyReserveType) \
+        and attrib_value.length is not None and attrib_value.length.units == styles.LengthType.Units.px
 
     @classmethod
     def extract(cls, context: StyleParsingContext, xml_attrib: str):
@@ -883,6 +884,10 @@ class StyleProperties:
 
     @classmethod
     def from_model(cls, xml_element, model_value: styles.TextEmphasisType):
+      if model_value is styles.SpecialValues.none:
+        xml_element.set(f"{{{cls.ns}}}{cls.local_name}", model_value.value)
+        return
+
       actual_values = []
 
       actual_values.append(model_value.style.value)
@@ -960,6 +965,9 @@ class StyleProperties:
 
     @classmethod
     def has_px(cls, attrib_value: styles.TextShadowType) -> bool:
+
+      if not isinstance(attrib_value, styles.TextShadowType):
+        return False
 
       for shadow in attrib_value.shadows:
         if shadow.x_offset.units == styles.LengthType.Units.px or \
